@@ -59,6 +59,54 @@ fn classify_panic(p: &str) -> &'static str {
     }
 }
 
+/// Directed tainted scenario: all 14 group slots alive, then many more binds of ungrouped pairs
+/// (beyond the limits, so no behavioural expectation): whatever the code does with the surplus
+/// members must stay inside its arrays. Then the graph keeps being used.
+fn slot_exhaustion(seed: u64, cfg: &ShardCfg, out: &mut ShardOut, log: &mut Log, slow: bool) {
+    let mut rng = Rng::new(seed);
+    let n = *rng.pick(&[1usize, 2, 16]);
+    let cap = if slow { 80 } else { *rng.pick(&[80usize, 120, 300, 700]) };
+    out.configs.insert((n, cap));
+    log.line(&format!("# slot-exhaustion scenario seed={seed} N={n} cap={cap}"));
+    let mut g = new_graph(n, cap);
+    let l = Label::Alpha(0);
+    let mut next = 0usize;
+    let mut pair = |g: &mut Box<dyn Graph>, log: &mut Log, out: &mut ShardOut, a: usize, b: usize, put: bool| {
+        log.line(&format!("add {a}; add {b}; bind {a} {b}{}", if put { "; put" } else { "" }));
+        let _ = guarded(|| g.add(a));
+        let _ = guarded(|| g.add(b));
+        if put {
+            let _ = guarded(|| g.put(b, &Hex::from_vec(vec![1, 2, 3, 4, 5, 6, 7, 8, 9])));
+        }
+        let r = guarded(|| g.bind(a, b, l));
+        out.calls += 3;
+        out.counters.inc("c07.slot-exhaustion-binds");
+        if let Err(p) = r {
+            out.counters.inc(&format!("c07.tainted-panic.{}", classify_panic(&p)));
+        }
+    };
+    for _ in 0..14 {
+        pair(&mut g, log, out, next, next + 1, rng.chance(1, 3));
+        next += 2;
+    }
+    let extra = rng.range(18, 24);
+    for j in 0..extra {
+        // later pairs use high ids so that a corrupted length would index far away
+        let (a, b) = if j >= 16 && cap > 100 { (cap - 2 - 2 * (j - 16), cap - 1 - 2 * (j - 16)) } else { (next, next + 1) };
+        pair(&mut g, log, out, a, b, rng.chance(1, 2));
+        next += 2;
+    }
+    log.line("keys; debug; reads");
+    let _ = guarded(|| g.keys().len());
+    let _ = guarded(|| g.debug().len());
+    for v in 0..next.min(cap) {
+        let _ = guarded(|| g.data(v).map(|h| h.len()));
+    }
+    let _ = guarded(|| g.clone_box().keys().len());
+    let _ = guarded(|| g.keys().len());
+    out.nontrivial.insert(mix(&[seed, 0x51]));
+}
+
 /// One hostile history. Returns a violation message for the behavioural part, if any.
 fn hostile_history(
     seed: u64,
@@ -497,6 +545,11 @@ pub fn run_c07(cfg: &ShardCfg, out: &mut ShardOut) {
         }
         let seed = mix(&[cfg.seed, cfg.shard, j as u64, 7]);
         out.evaluations += 1;
+        // every shard's first history (and one in eight after that) is the directed scenario
+        if j == 0 && cfg.shard % 2 == 0 || j > 0 && seed % 8 == 0 {
+            slot_exhaustion(seed, cfg, out, &mut log, slow);
+            continue;
+        }
         if let Some(msg) = hostile_history(seed, cfg, out, &mut log, slow) {
             let p = write_replay(
                 cfg,
